@@ -4,7 +4,7 @@ from fractions import Fraction
 from ..core import *
 from .. import gen
 
-IMPORTS = 'From OFV Require Import Base.Cplx Sem.PauliSem Model.SymbolicOp Model.QubitOp Model.LadderOp Model.Program.\n'
+IMPORTS = 'From OFV Require Import Base.Cplx Sem.PauliSem Model.SymbolicOp Model.QubitOp Model.LadderOp Model.Program Model.Predicates Model.MajoranaOp Check.DictEquiv Check.OpEquiv Check.Commutator.\n'
 
 CLASSES = {
     # name: (python class name, actions, coq factor printer, coq (feqb, simplify))
@@ -234,6 +234,63 @@ def run(ctx):
                        'impl_trace': [[[x, {repr(t): repr(c) for t, c in d.items()}] for x, d in dump] for dump in tr],
                        'model_trace': model_dump})
     if nbad > 3: ctx.notes.append('%d disagreeing programs in total; first 3 minimised' % nbad)
+    run_majorana(ctx)
+
+def run_majorana(ctx):
+    """MajoranaOperator arithmetic: model dictionaries and the Jordan-Wigner denotation (gamma_k as Pauli words)"""
+    from ..impl import of
+    from ..ops import exact_terms_ok
+    rng = ctx.rng
+    M = of.MajoranaOperator
+    def cm(t): return clist([cN(i) for i in t])
+    def cmo(d): return clist([cpair(cm(t), cC(c)) for t, c in d.items()])
+    items, meta = [], []
+    for i in range(250 if ctx.quick else 2500):
+        pool = rng.choice([list(range(5)), [0, 1, 2, 3, 4, 5, 6], [1, 4, 9, 10, 11]])
+        def rop():
+            op = M()
+            for _ in range(rng.randint(0, 4)):
+                t = tuple(rng.choice(pool) for _ in range(rng.randint(0, 5)))
+                op += M(t, rand_coeff(rng))
+            return op
+        a, b = rop(), rop()
+        k = rng.choice([2, -1, 0.5, 2j, -4j, 3])
+        # constructor on an unsorted word with repeats
+        w = tuple(rng.choice(pool) for _ in range(rng.randint(0, 6))); c0 = rand_coeff(rng)
+        mw = M(w, c0)
+        outs = {'mul': a * b, 'add': a + b, 'sub': a - b, 'scal': a * k, 'rscal': k * a, 'div': a / k, 'neg': -a, 'pow': a ** 2}
+        if not all(exact_terms_ok(o.terms) for o in outs.values()): continue
+        A, B = cmo(a.terms), cmo(b.terms)
+        E = lambda o: cmo(o.terms)
+        expr = ' && '.join([
+            'dict_eqb N N.eqb (mmk %s %s) %s' % (cm(w), cC(c0), E(mw)),
+            'pauli_equiv (mjw0 [(%s, %s)]) (mjw0 %s)' % (cm(w), cC(c0), E(mw)),
+            'dict_eqb N N.eqb (mmul %s %s) %s' % (A, B, E(outs['mul'])),
+            'pauli_equiv (qmul (mjw0 %s) (mjw0 %s)) (mjw0 %s)' % (A, B, E(outs['mul'])),
+            'dict_eqb N N.eqb (madd %s %s) %s' % (A, B, E(outs['add'])),
+            'dict_eqb N N.eqb (msub %s %s) %s' % (A, B, E(outs['sub'])),
+            'pauli_equiv (qsub0 (mjw0 %s) (mjw0 %s)) (mjw0 %s)' % (A, B, E(outs['sub'])),
+            'dict_eqb N N.eqb (mscale %s %s) %s' % (A, cC(k), E(outs['scal'])),
+            'dict_eqb N N.eqb (mscale %s %s) %s' % (A, cC(k), E(outs['rscal'])),
+            'dict_eqb N N.eqb (mscale %s (Cinv %s)) %s' % (A, cC(k), E(outs['div'])),
+            'dict_eqb N N.eqb (mscale %s Cm1) %s' % (A, E(outs['neg'])),
+            'dict_eqb N N.eqb (mmul %s %s) %s' % (A, A, E(outs['pow'])),
+            'forallb (fun tc : mterm * C => Bool.eqb (snd (msort (fst tc))) false && teqb N.eqb (fst (msort (fst tc))) (fst tc)) %s' % E(outs['mul']),
+        ])
+        items.append('(' + expr + ')')
+        meta.append(('majorana', {'call': 'MajoranaOperator arithmetic', 'a': repr(a.terms), 'b': repr(b.terms), 'k': repr(k), 'word': repr(w), 'c0': repr(c0)}))
+        ctx.count('majorana', 1, nontrivial_key=(repr(a.terms), repr(b.terms)) if len(a.terms) > 1 else None)
+        # aliasing: in-place forms must equal out-of-place and leave the other operand alone
+        a2 = M.from_dict(dict(a.terms)); b2 = M.from_dict(dict(b.terms)); a2 += b2; a3 = M.from_dict(dict(a.terms)); a3 -= a3; a4 = M.from_dict(dict(a.terms)); a4 *= a4
+        if a2.terms != outs['add'].terms or b2.terms != b.terms or any(v != 0 for v in a3.terms.values()) or a4.terms != outs['pow'].terms:
+            ctx.violation('C01 majorana: in-place operation differs from out-of-place or changed an operand', {'a': repr(a.terms), 'b': repr(b.terms)})
+    res = coq_eval_bools(ctx, 'maj', IMPORTS, items, chunk=50)
+    for (part, replay), ok in zip(meta, res):
+        if ok is True: continue
+        if ok is None:
+            ctx.violation('C01 majorana: the Coq model could not be evaluated', {'obligation': 'Model.MajoranaOp evaluation', 'input': replay}, no_input=True); continue
+        ctx.cov['disagreements_checked'] += 1
+        ctx.violation('C01 majorana: result differs from the model dictionary or from the product/sum of the denoted Pauli operators', replay)
 
 def classify_exception(prog, err):
     return None
